@@ -600,7 +600,7 @@ def ok_func(name="a.c", body="\treturn (0);\n", fname="main"):
     return header42(name) + f"\nint\t{fname}(void)\n{{\n{body}}}\n"
 
 
-def specials():
+def specials(depth_family=False):
     """[(name, content, tag)] hand-made members; their class is measured, the tag is only a label."""
     out = []
     H = header42
@@ -677,7 +677,7 @@ def specials():
     # #if expressions nested d parentheses deep, one depth per file: the constant-expression parser runs under an absolute
     # recursion limit, so somewhere in this range the answer flips from a verdict to "too complex" - where exactly depends
     # on how deep the caller's stack already is (which must be the same for every input channel and option)
-    for d in range(60, 100, 2):
+    for d in (range(44, 90) if depth_family else ()):
         out.append((f"depth_if{d}.c", header42(f"depth_if{d}.c") + "\n#if " + "(" * d + "1" + ")" * d + "\n# define A 1\n#endif\n\nint\tmain(void)\n{\n\treturn (0);\n}\n", "depth"))
     # malformed literals (4.11)
     lits = ["0b102", "0189", "0xfg", "10lul", "10q", "1uu", "0x1e+1", "1e", "1e+", "1.e-", "1.2.3", "1.0q", "1.0ff",
